@@ -5,7 +5,7 @@
    for the generated predicate.  If the .pyx changes its meaning, either
    [gen_cross_is_model] stops compiling or the correspondence run disagrees. *)
 From Coq Require Import ZArith QArith List Bool Lqa.
-From Verif Require Import Model.C15 Proofs.C15 Proofs.C15_sweep Gen.PnpolyGen.
+From Verif Require Import Model.C15 Proofs.C15 Proofs.C15_sweep Proofs.C15_copy Gen.PnpolyGen.
 Import ListNotations.
 Open Scope Q_scope.
 
@@ -81,3 +81,17 @@ Lemma gen_sweep zpoly zp :
   /\ gen_pip (map inj zpoly) (inj zp) = pip cross_left (map inj zpoly) (inj zp)
   /\ (winding4 (map inj zpoly) (inj zp) mod 4 = 0)%Z.
 Proof. rewrite gen_pip_model. apply sweep_theorem_z. Qed.
+
+Definition gen_apply := pf_apply gen_cross_pt.
+
+Lemma gen_copy_invert_complement (f : pfilter Q) r pts :
+  gen_apply (fst (pf_copy f true r)) pts = map negb (gen_apply f pts)
+  /\ gen_apply (fst (pf_copy f false r)) pts = gen_apply f pts.
+Proof. split; [apply copy_invert_complement|apply copy_plain_same]. Qed.
+
+Lemma gen_copy_invert_involution (f : pfilter Q) r r' pts :
+  let g := fst (pf_copy (fst (pf_copy f true r)) true r') in
+  gen_apply g pts = gen_apply f pts
+  /\ f_inv Q g = f_inv Q f /\ f_ax Q g = f_ax Q f /\ f_ay Q g = f_ay Q f
+  /\ f_name Q g = f_name Q f /\ f_pts Q g = f_pts Q f.
+Proof. split; [apply copy_invert_involution_filter|apply copy_invert_involution]. Qed.
